@@ -184,7 +184,12 @@ Definition gc_file (cf : cfg) (hf : bytes -> N) (begin : nat) (st : gcst) (src :
     let st1 := mkGC (clear_hint_chunk b src) (gc_dst st) (gc_stat st) in
     let st2 := fold_left (gc_record cf hf begin src) recs st1 in
     let b2 := gc_b st2 in
-    let b3 := if Nat.eqb src (gc_dst st2) then b2 else clear_chunk b2 src in
+    (* source = destination: the in-place rewrite of this file is complete; with Consts.gc_truncates_after_inplace
+       (repair of finding F4) its stale tail is dropped at once and the writer continues in append mode *)
+    let b3 := if Nat.eqb src (gc_dst st2) then
+                (if gc_truncates_after_inplace && k_rewriting (chunk_at b2 src)
+                 then begin_gc_writing (end_gc_writing b2 src) src (S src) else b2)
+              else clear_chunk b2 src in
     let b4 := if Nat.leb (b_nextgc b3) (S src) then set_nextgc b3 (S src) else b3 in
     mkGC b4 (gc_dst st2) (gc_stat st2).
 
